@@ -59,8 +59,9 @@ def load_path(file_obj, file_type: Optional[str] = None, **kwargs):
         # convert from shapely LineStrings to Path2D
         kwargs.update(misc.linestrings_to_path(file_obj))
     elif isinstance(file_obj, dict):
-        # load as kwargs
-        kwargs = file_obj
+        # load as kwargs: entities exported by `to_dict` are
+        # plain dicts and have to be turned back into objects
+        kwargs = misc.dict_to_path(file_obj)
     elif util.is_sequence(file_obj):
         # load as lines in space
         kwargs.update(misc.lines_to_path(file_obj))
